@@ -65,6 +65,13 @@ class CallGraph:
                 return r
             if f.id in func.params:
                 return sorted(self.funcparams.get((func.key, f.id), ()), key=lambda x: x.key)
+            # a closure calling a function-valued parameter of an enclosing function
+            q = func.qualname
+            while '.<locals>.' in q:
+                q = q.rsplit('.<locals>.', 1)[0]
+                outer = module.funcs.get(q)
+                if outer is not None and f.id in outer.params:
+                    return sorted(self.funcparams.get((outer.key, f.id), ()), key=lambda x: x.key)
             return []
         if isinstance(f, ast.Attribute):
             v = f.value
